@@ -44,6 +44,19 @@ def fixed_cases():
     yield {'t': ['fill', [['ab', ['fc', ['t', 'B'], ['t', 'F']]]]], 'w': 10, 'frac': 1.0, 'strategy': 'smart'}
     yield {'t': ['grp', ['cat', [['t', 'a'], ['line'], ['t', 'b'], ['hard'], ['t', 'c']]]], 'w': 10, 'frac': 1.0, 'strategy': 'smart'}
     yield {'t': ['cat', [['t', 'a'], ['t', ' b '], ['hard'], ['t', ' c'], ['t', ' '], ['t', ' ']]], 'w': 10, 'frac': 1.0, 'strategy': 'smart'}
+    yield from _d28_cases()
+
+
+def _d28_cases():
+    # D28: the trailing whitespace of an even-length fill holding an always_break; fill items holding hardline then always_break (KF1)
+    T = lambda s: ['t', s]
+    for s in ('smart', 'fast'):
+        for w in (5, 20):
+            yield {'t': ['fill', [T('x'), ['cat', [['ab', T(' y')], ['line'], T('a')]]]], 'w': w, 'frac': 0.5, 'strategy': s}
+            yield {'t': ['fill', [T('x'), ['line'], T('z'), ['cat', [['ab', T('y')], ['line']]]]], 'w': w, 'frac': 1.0, 'strategy': s}
+            yield {'t': ['grp', ['fill', [T('x'), ['nest', 2, ['cat', [['ab', T('y')], ['line'], T('a')]]]]]], 'w': w, 'frac': 1.0, 'strategy': s}
+            yield {'t': ['fill', [T('x'), ['cat', [['hard'], ['ab', T(' y')], ['line'], T('a')]], T('z')]], 'w': w, 'frac': 0.5, 'strategy': s}
+            yield {'t': ['fill', [['cat', [['hard'], ['ab', T(' y')], ['line'], T('a')]]]], 'w': w, 'frac': 0.5, 'strategy': s}
 
 
 def strategy(tier):
